@@ -10,10 +10,10 @@ T = {
          "Runtime monitoring: thousands (quick) to hundreds of thousands (thorough) of real timelines are built through the public builder from generated keyframe sets and every evaluated property is compared with an independent executable model of CSS keyframe interpolation; a small scope is enumerated exhaustively. Held = no disagreement on the executions observed.",
          "Trusts rustc/std f32 arithmetic; easing curves are uninterpreted (C13); timing restricted to instants whose position is exact in f32 — power-of-two cycles, and cycles such as 3, 41, 0.75 s at their j/2^m fractions (C03 covers inexact timing).", "§4 C01"),
  "C02": (True, "analytic-oracle monitor at exact keyframe/boundary instants (power-of-two and other short-mantissa cycles), off-grid timing judged well after the end / inside the delay, and builders with omitted timing setters",
-         "Runtime monitoring of real timelines at times that map exactly onto every keyframe position of every property in every cycle, onto the delay, the end of each forward pass and times at/after the total duration; oracle = the keyframe / 0 % / 100 % / terminal value (ints exact, floats <= 4 ulp, terminal bits constant). A second stream uses cycles off the dyadic grid (0.1 s, 0.7 s, ...) and judges only well after the end and well inside the delay. One plain timeline in eight is built with some of the duration / delay / repeat setters omitted and judged against what a bare builder reports for them (which must be a valid configuration).",
+         "Runtime monitoring of real timelines at times that map exactly onto every keyframe position of every property in every cycle, onto the delay, the end of each forward pass and times at/after the total duration; oracle = the keyframe / 0 % / 100 % / terminal value (ints exact, floats <= 4 ulp, terminal bits constant). A second stream uses cycles off the dyadic grid (0.1 s, 0.7 s, ...) and judges only well after the end and well inside the delay. In a third of the substituted cases an earlier, different start_with precedes the one in force. One plain timeline in eight is built with some of the duration / delay / repeat setters omitted and judged against what a bare builder reports for them (which must be a valid configuration).",
          "Only configurations whose f32 intermediates are exact are generated; ambiguous cases (same property twice at a position) are never judged.", "§4 C02"),
  "C03": (True, "exhaustive/dense sweep of the f32 time axis against an f64 model with boundary bands + bit-exact dyadic grid relations",
-         "Runtime monitoring of TimeScale::get_position and of Timeline::update on a linear probe over every f32 bit pattern (thorough) / stride-61 + all floats within 4096 ulp of each phase boundary (quick) for fixed and random timing configurations; bit-exact comparison, periodicity and mirror relations on a dyadic grid; an exact stream over 4 280 configurations whose cycle is not a power of two (all integer cycles 1..100 s and some fractional ones, at every j/64 fraction of every cycle); a three-keyframe probe for the resting values; metadata accessors (also through the single-component MergedTimeline wrapper, also with negative totals) tied to observed behaviour.",
+         "Runtime monitoring of TimeScale::get_position and of Timeline::update on a linear probe over every f32 bit pattern (thorough) / stride-61 + all floats within 4096 ulp of each phase boundary (quick) for fixed and random timing configurations; bit-exact comparison, periodicity and mirror relations on a dyadic grid; an exact stream over 4 280 configurations whose cycle is not a power of two (all integer cycles 1..100 s and some fractional ones, at every j/64 fraction of every cycle); a three-keyframe probe for the resting values; eight timing sentences written in the timeline! grammar (mixed units); metadata accessors (also through the single-component MergedTimeline wrapper, also with negative totals) tied to observed behaviour.",
          "Inside a band of about one ulp around a wrap / turning point / end instant either side is accepted (counted).", "§4 C03"),
  "C04": (True, "relational monitor over exhaustively enumerated and random operation histories (before/after set_state snapshots, twin animator)",
          "Runtime monitoring: all histories to depth 5 (quick) / 7 (thorough) over a 10-operation alphabet on a pool of animator configurations plus random long histories (now and then with a step of 2e12 s .. f32::MAX) with probe suffixes; current_values must be bit-identical immediately before and after every set_state, and a twin that never receives set_state(current) must follow the identical trajectory.",
@@ -61,7 +61,7 @@ T = {
          "Runtime monitoring of the real plugin: every frame-delta history of length 6 (quick) / 8 (thorough) over {0, 1/512 s, 1/8 s, 64 s} for 41 timelines (3 of them off the dyadic grid), every (operation, delta) history of length 4/5, and random 50-300 frame histories (one or two animated components, 4 registration orders, single- and multi-threaded executor, animators built through every public constructor); invariants 0-8 checked after every frame.",
          "bevy 0.11.3 App/Time/Events trusted; after a hot set_timeline only invariants 1,2,3,7,8 are demanded until the next reset; the f32 reading of a position may be as_secs_f32() or the correctly rounded one; off-grid timelines carry a 2 ulp band at their total.", "§4 C18"),
  "C19": (True, "online trace-specification checker with candidate model states (nondeterministic system order / race outcome) over exhaustive and random histories in a real bevy App",
-         "Runtime monitoring of selector/chain: every history of length 4 (quick) / 5 (thorough) over {no-op, assign 4 keys} x 4 frame deltas for 30 configurations (chains with cycles/self-loops/missing entries, second animated component) plus random long histories; each frame must be explained by the specification under some system order and race outcome.",
+         "Runtime monitoring of selector/chain: every history of length 4 (quick) / 5 (thorough) over {no-op, assign 4 keys} x 4 frame deltas for 30 configurations (chains with cycles/self-loops/missing entries, second animated component) plus random long histories; each frame must be explained by the specification under some system order and race outcome; 96 further runs share one key type between the selectors of two component types and demand bounded progress of each chain.",
          "chain/select are mutually unordered in mina's registration, so either order is accepted; the explicit-assignment race accepts both documented outcomes.", "§4 C19"),
  "C20": (True, "hostile-alphabet monitor under catch_unwind with NaN/inf scanning and a dev-vs-release output-log diff (overflow-checks as arithmetic sanitizer)",
          "Runtime monitoring with extreme but valid configurations (repeat counts up to u32::MAX, cycles/delays from MIN_POSITIVE to f32::MAX, boundary positions, +-1e37 values, full-range integer properties under all easings, times at every boundary +-1 ulp and up to f32::MAX, animator advances beyond Duration::MAX, builders with any subset of the timing setters left out, the empty merged timeline): every call under catch_unwind, outputs scanned for non-finite values, duration() compared with the documented total, and the identical seeded workload run in the dev (overflow-checks, debug-assertions) and release builds with the output logs diffed.",
